@@ -1,6 +1,8 @@
 import Driver.Proto
 import PtVerif.Model.FormulaOps
 import PtVerif.Model.Symbols
+import PtVerif.Model.Density
+import PtVerif.Generated.FormulaConsts
 import Std.Data.HashMap
 /-! Driver sub-command `formula`: the formula algebra (C02, C19) at `Float`. -/
 namespace Driver.FormulaCmd
@@ -10,6 +12,8 @@ structure St where
   mass : Std.HashMap (Nat × Nat) Float := {}
   sym : Std.HashMap (Nat × Nat) Nat := {}
   me : Float := 0
+  edens : Std.HashMap Nat Float := {}
+  radius : Std.HashMap Nat Float := {}
   heap : Heap Float := Heap.empty
 
 def init : St := {}
@@ -22,6 +26,18 @@ def St.symFn (st : St) (z a : Nat) : Nat :=
   | some s => s
   | none => (st.sym.get? (z, 0)).getD 0
 def St.am (st : St) : Atom → Float := atomMass st.massFn st.me
+
+def St.atomDens (st : St) : Atom → Option Float := atomDensity st.massFn (fun z => st.edens.get? z)
+def St.radiusFn (st : St) (x : Atom) : Float := (st.radius.get? x.z).getD (0.0 / 0.0)
+
+def optF (s : String) : Option (Option Float) :=
+  if s = "-" then some none else (readF s).map some
+def showOptF : Option Float → String
+  | none => "-"
+  | some x => showF x
+
+/-- split `… <items> rest` -/
+def itemsThen (t : Toks) : Option (Items Float × Toks) := readItems t
 
 def withObj (st : St) (r : String) (k : Items Float → IO Unit) : IO Unit :=
   match natTok r >>= st.heap.obj with
@@ -79,6 +95,87 @@ def handle (st : St) : Toks → IO St
     match natTok r, natTok r1 with
     | some r, some r1 => stepOp st (.hill r r1)
     | _, _ => do reply "ERR bad-op"; pure st
+  | ["edens", z, d] =>
+    match natTok z, readF d with
+    | some z, some d => pure { st with edens := st.edens.insert z d }
+    | _, _ => do reply "ERR bad-op"; pure st
+  | ["radius", z, d] =>
+    match natTok z, readF d with
+    | some z, some d => pure { st with radius := st.radius.insert z d }
+    | _, _ => do reply "ERR bad-op"; pure st
+  | "nmr" :: rest => do
+    match itemsThen rest with
+    | some (s, []) => reply (showF (naturalMassRatio st.am s.atoms))
+    | _ => reply "ERR bad-op"
+    pure st
+  | "ctor" :: rest => do
+    match itemsThen rest with
+    | some (s, [d, n]) =>
+      match optF d, optF n with
+      | some d, some n => reply (showOptF (ctorDensity st.am st.atomDens s.atoms d n))
+      | _, _ => reply "ERR bad-op"
+    | _ => reply "ERR bad-op"
+    pure st
+  | "strdens" :: rest => do
+    match itemsThen rest with
+    | some (s, [tag, d, n]) =>
+      let tg : Option (Option (Float × Bool)) :=
+        if tag = "-" then some none
+        else if tag.startsWith "n" then (readF (tag.drop 1).toString).map fun v => some (v, true)
+        else if tag.startsWith "i" then (readF (tag.drop 1).toString).map fun v => some (v, false)
+        else none
+      match tg, optF d, optF n with
+      | some tg, some d, some n => reply (showOptF (stringDensity st.am st.atomDens s.atoms tg d n))
+      | _, _, _ => reply "ERR bad-op"
+    | _ => reply "ERR bad-op"
+    pure st
+  | "getnat" :: rest => do
+    match itemsThen rest with
+    | some (s, [d]) =>
+      match readF d with
+      | some d => reply (showF (getNaturalDensity st.am s.atoms d))
+      | none => reply "ERR bad-op"
+    | _ => reply "ERR bad-op"
+    pure st
+  | "setnat" :: rest => do
+    match itemsThen rest with
+    | some (s, [d]) =>
+      match readF d with
+      | some d => reply (showF (setNaturalDensity st.am s.atoms d))
+      | none => reply "ERR bad-op"
+    | _ => reply "ERR bad-op"
+    pure st
+  | "replace" :: rest => do
+    match itemsThen rest with
+    | some (s, [d, sz, sa, sq, tz, ta, tq, p]) =>
+      match optF d, natTok sz, natTok sa, intTok sq, natTok tz, natTok ta, intTok tq, readF p with
+      | some d, some sz, some sa, some sq, some tz, some ta, some tq, some p =>
+        let (t2, d2) := substitute st.am s.atoms d ⟨sz, sa, sq⟩ ⟨tz, ta, tq⟩ p
+        reply (showOptF d2 ++ " | " ++ showItems (hillS st.symFn t2))
+      | _, _, _, _, _, _, _, _ => reply "ERR bad-op"
+    | _ => reply "ERR bad-op"
+    pure st
+  | "volume" :: rest => do
+    match itemsThen rest with
+    | some (s, [pf]) =>
+      match readF pf with
+      | some pf => reply (showF (sphereVolume st.radiusFn s.atoms pf))
+      | none => reply "ERR bad-op"
+    | _ => reply "ERR bad-op"
+    pure st
+  | "volumen" :: rest => do
+    match itemsThen rest with
+    | some (s, [name]) =>
+      match (PtGen.packingFactors (α := Float)).find? (·.1 = name) with
+      | some (_, pf) => reply (showF (sphereVolume st.radiusFn s.atoms pf))
+      | none => reply "ERR KeyError"
+    | _ => reply "ERR bad-op"
+    pure st
+  | ["cellvol", a, b, c, al, be, ga] => do
+    match readF a, optF b, optF c, optF al, optF be, optF ga with
+    | some a, some b, some c, some al, some be, some ga => reply (showF (latticeVolume a b c al be ga))
+    | _, _, _, _, _, _ => reply "ERR bad-op"
+    pure st
   | ["struct", r] => do withObj st r (fun s => reply (showItems s)); pure st
   | ["atoms", r] => do withObj st r (fun s => reply ("atoms " ++ showAList s.atoms)); pure st
   | ["mass", r] => do withObj st r (fun s => reply (showF (massOf st.am s.atoms))); pure st
